@@ -38,8 +38,10 @@ c.biom = biom
 if hasattr(mod, 'setup'):
     mod.setup(c)
 total = mod.plan('quick')['cases']
-step = max(1, total // n)
-C.run_indices(mod, c, list(range(0, total, step))[:n])
+import random          # noqa: E402
+# a random sample, not a stride: case kinds are often chosen by index % k
+C.run_indices(mod, c, sorted(random.Random(0).sample(range(total),
+                                                     min(n, total))))
 for hook in ('stress', 'finish'):
     if hasattr(mod, hook):
         try:
